@@ -13,6 +13,10 @@ RULE = ("BFS over all command sequences (alphabet R/W x addresses x byte-enables
         "a state is non-trivial if it differs from reset (all are distinct product states)")
 
 SDR = dict(nphases=1, memtype="SDR", databits=16, colbits=8)
+DDR2 = dict(nphases=2, memtype="DDR2", databits=8, colbits=10, cl=3, cwl=2, RL=3, WL=0)
+DDR = dict(nphases=2, memtype="DDR", databits=8, colbits=10, cl=3, cwl=None, RL=3, WL=0)
+LPDDR = dict(nphases=2, memtype="LPDDR", databits=8, colbits=10, cl=3, cwl=None, RL=3, WL=0)
+DDR4 = dict(nphases=4, memtype="DDR4", databits=8, colbits=10, cl=9, cwl=9, RL=4, WL=2, timing=dict(tRP=2, tRCD=2, tWR=2, tWTR=2, tRFC=4, tCCD=1, tRC=5, tRAS=3, tREFI=100))
 DDR3 = dict(nphases=4, memtype="DDR3", databits=8, colbits=10, cl=6, cwl=5, RL=3, WL=1, timing=dict(tRP=2, tRCD=2, tWR=2, tWTR=2, tRFC=4, tCCD=1, tRC=5, tRAS=3, tREFI=100))
 
 
@@ -34,6 +38,7 @@ def configs(tier):
         add("sdr-1p-K3-noap-norefresh-w0.1", refresh=False, K=3, ap=False, watch=(0, 1), **SDR)
         add("sdr-2p-K2-norefresh-w0.0", refresh=False, K=2, nports=2, watch=(0, 0), rows=(0,), wes=[3, 1], **SDR)
         add("sdr-2p-K2-norefresh-w1.1", refresh=False, K=2, nports=2, watch=(1, 1), banks=(0,), wes=[3, 2], **SDR)
+        add("ddr2x2-1p-K3-norefresh-w1.2", refresh=False, K=3, watch=(1, 2), wes=[15, 4], **DDR2)      # 1:2 rate
         add("ddr3x4-1p-K3-norefresh-w0.0", refresh=False, K=3, watch=(0, 0), wes=[255, 1], **DDR3)
         add("ddr3x4-1p-K3-norefresh-w3.5", refresh=False, K=3, watch=(3, 5), wes=[255, 32], **DDR3)
         add("ddr3x4-1p-K2-refresh-W10-w1.2", refresh=True, K=2, window=10, watch=(1, 2), wes=[255, 4], **DDR3)
@@ -47,6 +52,15 @@ def configs(tier):
             add("sdr-2p-K3-norefresh-w%d.%d" % w, refresh=False, K=3, nports=2, watch=w, wes=[3, 1 << w[1]], **SDR)
             add("sdr-1p-K4-buffered-d4-w%d.%d" % w, refresh=False, K=4, buffered=True, depth=4, watch=w, **SDR)
             add("sdr-2rank-1p-K3-w%d.%d" % w, refresh=False, K=3, nranks=2, bankbits=1, banks=(0, 2), watch=w, **SDR)
+        for (nm, cfg) in (("ddr", DDR), ("lpddr", LPDDR), ("ddr2", DDR2)):
+            for w in [(0, 0), (3, 3)]:
+                add("%sx2-1p-K3-norefresh-w%d.%d" % ((nm,) + w), refresh=False, K=3, watch=w, wes=[15, 1 << w[1]], **cfg)
+            add("%sx2-1p-K2-refresh-W12-w1.1" % nm, refresh=True, K=2, window=12, watch=(1, 1), wes=[15, 2], **cfg)
+        for w in [(0, 0), (2, 5)]:
+            add("ddr4x4-1p-K3-norefresh-w%d.%d" % w, refresh=False, K=3, watch=w, wes=[255, 1 << w[1]], **DDR4)
+        add("sdr-3p-K1-norefresh-w0.0", refresh=False, K=1, nports=3, watch=(0, 0), rows=(0,), wes=[3, 1], **SDR)
+        add("sdr-4p-K1-norefresh-w1.1", refresh=False, K=1, nports=4, watch=(1, 1), banks=(0,), wes=[3, 2], **SDR)
+        add("sdr-2p-K2-depth1-refresh-W10-w0.1", refresh=True, K=2, window=10, nports=2, depth=1, watch=(0, 1), rows=(0,), wes=[3, 2], **SDR)
         for w in [(0, 0), (1, 3), (2, 6), (3, 7)]:
             add("ddr3x4-1p-K4-norefresh-w%d.%d" % w, refresh=False, K=4, watch=w, wes=[255, 1 << w[1]], **DDR3)
             add("ddr3x4-1p-K3-refresh-W20-w%d.%d" % w, refresh=True, K=3, window=20, watch=w, wes=[255, 1 << w[1]], **DDR3)
